@@ -3,7 +3,7 @@
     search <LOGIC> ## <trunk nodes ; …> ## <event> ## <event> …
   events:  S <Rule> <bi>            `rule.target(branch)` was called (its releases / gc happen)
            A <Rule> <step…>         the rule applied this target (step syntax of the `replay` request)
-    <Rule> = closure | Reflexive | Transitive | Symmetric | Serial | the class name of a table rule
+    <Rule> = closure | Reflexive | Transitive | Symmetric | Serial | IdentityIndiscernability | the class name of a table rule
   answer:  ok <n> :: <T0> ## <T1> ## …      T0 = target sets after the trunk, Ti after the i-th A event:
                <bi>/<Rule>=<step>,<step>,…  items separated by ' ; ' — per open branch and rule with a non-empty
                target set, steps sorted; closure targets are shown as `X` (existence only); `!inv:<clause>` is appended
@@ -24,12 +24,14 @@ open Ptx Ptx.Wire Ptx.Search
 
 def ruleIdOf (L : LogicData) (name : String) : Option RuleId :=
   if name == "closure" then some .closure else
+  if name == "IdentityIndiscernability" then some .ident else
   match Drv.Tab.frameRuleOf name with
   | some fr => some (.frame fr)
   | none => (L.rules.find? fun kr => kr.2.name == name).map fun kr => .table kr.1
 
 def ruleName (L : LogicData) : RuleId → String
   | .closure => "closure"
+  | .ident => "IdentityIndiscernability"
   | .frame fr => fr.name
   | .table k => match L.rule? k with | some r => r.name | none => "?"
 
